@@ -241,9 +241,45 @@ def r6_logical(ctx):
 
 
 def run(ctx):
+    ctx.guard("C10.K17", "constructor fidelity", lambda: __import__("ctor").check_for(ctx, "C10", 22))
     ctx.guard("C10.R1", "LessThanN", lambda: r1_less_than_n(ctx))
     ctx.guard("C10.R2", "EveryN", lambda: r2_every_n(ctx))
     ctx.guard("C10.R3", "OptimumReached", lambda: r3_optimum_reached(ctx))
     ctx.guard("C10.R4", "ChangeOf", lambda: r4_change_of(ctx))
     ctx.guard("C10.R5", "RandomChance", lambda: r5_random_chance(ctx))
     ctx.guard("C10.R6", "And/Or/Not", lambda: r6_logical(ctx))
+    ctx.guard("C10.R7", "ChangeOf memory key", lambda: r7_memory_key(ctx))
+
+
+def r7_memory_key(ctx):
+    """`the value it last reported` is per condition: the registry holds ONE value per state type (C01), so the state type
+    under which ChangeOf<L> keeps its memory must at least name the lens L.  A key built only from the lens' target type
+    (`Previous<<L as AnyLens>::Target>`) is shared by every ChangeOf whose lens has that target type (iterations and
+    evaluations are both u32): each then compares against what ANOTHER condition last reported."""
+    import re
+    F = ctx.facts
+    adt = CC + "ChangeOf"
+    n = 0
+    for mname in ("init", "evaluate"):
+        fn = F.method(adt, mname, COND)
+        gen = [p["name"] for p in (fn.generics or {}).get("params", []) if p.get("kind") != "lifetime"]
+        # the lens parameter of the impl: the one ChangeOf is instantiated with
+        m = re.match(r".*ChangeOf<(\w+)>$", fn.impl_self_ty or "")
+        lens = m.group(1) if m else None
+        if lens is None:
+            raise AnchorMissing("ChangeOf<L> impl header not recognised: %s" % fn.impl_self_ty)
+        for g in F.with_closures(fn):
+            for bb, t in g.body.calls():
+                ff = t["f"]
+                if not ff.get("key", "").startswith("mahf::state::registry::StateRegistry::") and not ff.get("key", "").startswith("mahf::state::State::"):
+                    continue
+                for ty in (ff.get("gargs") or [])[:1]:
+                    if "Previous" not in ty and lens not in re.findall(r"\w+", ty):
+                        continue
+                    n += 1
+                    bare = re.sub(r"<%s as [^>]*>::\w+" % lens, "", ty)     # drop projections `<L as Trait>::Assoc`
+                    names_lens = lens in re.findall(r"\w+", bare)
+                    ctx.check(names_lens, "C10.R7", fn.key, "memory-keyed-by-lens",
+                              "%s keeps the last reported value under %s, which does not name the lens %s itself: every ChangeOf whose lens has the same target type shares this one value"
+                              % (mname, ty, lens), loc=g.loc(t.get("line")))
+    ctx.floor("C10.R7", "state accesses of ChangeOf", n, 2)
